@@ -3,7 +3,7 @@
    whitening inverses, geometries, shank vectors, neighbourhood sizes, thresholds and requests: no size bound.
    Templates are lists of columns; the threshold fraction is p/q (Model.v). *)
 From Coq Require Import ZArith List Bool Arith Permutation.
-From PV Require Import Base.NpSort C05.Model C05.Spec C05.Proofs C05.Proofs2 C05.Proofs3 C05.Proofs4.
+From PV Require Import Base.NpSort C05.Model C05.Spec C05.Proofs C05.Proofs2 C05.Proofs3 C05.Proofs4 C05.Proofs5.
 Import ListNotations.
 Open Scope Z_scope.
 
@@ -161,6 +161,33 @@ Theorem C05_sparse_aligned_checker_sound : forall W sc cols chans unw r,
 Proof. exact sparse_aligned_b_sound. Qed.
 Print Assumptions C05_sparse_aligned_checker_sound.
 
+Theorem C05_sparse_sorted_checker_sound : forall cols chans r, sparse_sorted_b r = true -> Sparse_sorted cols chans r.
+Proof. exact sparse_sorted_b_sound. Qed.
+Print Assumptions C05_sparse_sorted_checker_sound.
+
+(* ---- tie-free inputs: the record does not depend on the oracle ------------------------------------------------ *)
+(* a sorting permutation of pairwise distinct keys is unique: NumPy's unstable argsort has no freedom there *)
+Theorem C05_argsort_unique : forall a1 a2 l, Argsort_ok a1 -> Argsort_ok a2 -> NoDup l -> a1 l = a2 l.
+Proof. exact argsort_unique. Qed.
+Print Assumptions C05_argsort_unique.
+
+(* dense storage: pairwise distinct distances from every channel and pairwise distinct channel amplitudes *)
+Theorem C05_dense_oracle_independent : forall a1 a2 d r,
+  Argsort_ok a1 -> Argsort_ok a2 -> d_cols d = None ->
+  (forall p0, In p0 (d_pos d) -> NoDup (map (fun p => dist2 p p0) (d_pos d))) ->
+  (forall T, dense_full d r = Some T -> NoDup (map ptp T)) ->
+  get_template a1 d r = get_template a2 d r.
+Proof. intros a1 a2 d r A1 A2 Hc. unfold get_template. rewrite Hc. now apply dense_oracle_independent. Qed.
+Print Assumptions C05_dense_oracle_independent.
+
+(* sparse storage: pairwise distinct amplitudes of the returned columns *)
+Theorem C05_sparse_oracle_independent : forall a1 a2 d table r,
+  Argsort_ok a1 -> Argsort_ok a2 -> d_cols d = Some table ->
+  (forall rec, get_template a1 d r = Some rec -> NoDup (t_amplitude rec)) ->
+  get_template a1 d r = get_template a2 d r.
+Proof. intros a1 a2 d table r A1 A2 Hc. unfold get_template. rewrite Hc. now apply sparse_oracle_independent. Qed.
+Print Assumptions C05_sparse_oracle_independent.
+
 (* ---- non-vacuity: the input of the repaired defect (DESIGN.md section 9), evaluated ----------------------------- *)
 Definition ex_ds (cols : option (list (list Z))) : dataset :=
   mkds [ [[0; 5; 0]; [0; 3; 0]; [0; 9; 0]; [0; 7; 0]]; [[0; 0; 1]; [0; 1; 1]; [0; 1; 1]; [0; 1; 1]] ]
@@ -223,3 +250,13 @@ Example C05_ex_scaling :
   get_template stable_argsort d (mkreq 0 None None true) = Some (mkrec [[0; 30; 0]; [0; 9; 0]] [30; 9] 1 [1; 0]%nat) /\
   get_template stable_argsort d (mkreq 0 None None false) = Some (mkrec [[0; 5; 0]; [0; 3; 0]] [5; 3] 0 [0; 1]%nat).
 Proof. vm_compute. split; reflexivity. Qed.
+(* a tie-free geometry and template: the premises of C05_dense_oracle_independent hold *)
+Example C05_ex_tie_free :
+  let P := [mkpos 0 0; mkpos 0 23; mkpos 0 52; mkpos 0 87] in
+  (forall p0, In p0 P -> NoDup (map (fun p => dist2 p p0) P)) /\
+  NoDup (map ptp [[0; 5; 0]; [0; 3; 0]; [0; 9; 0]; [0; 7; 0]]).
+Proof.
+  split.
+  - intros p0 [<-|[<-|[<-|[<-|[]]]]]; vm_compute; repeat constructor; cbn; intuition congruence.
+  - vm_compute. repeat constructor; cbn; intuition congruence.
+Qed.
